@@ -940,7 +940,46 @@ func ruleF15(c *Ctx) *RuleResult {
 				}
 			}
 			if len(srcs) < 2 {
-				return // gap entries etc.
+				// gap entries: the duration is the one stored in the gap itself
+				if nt.Obj().Name() == "MediaSegment" {
+					gapDur := c.Field("", "muxerGap", "duration")
+					for _, ref := range *al.Referrers() {
+						fa, ok := ref.(*ssa.FieldAddr)
+						if !ok || derefStruct(al.Type()).Field(fa.Field).Name() != "Duration" {
+							continue
+						}
+						for _, rr := range *fa.Referrers() {
+							st, ok := rr.(*ssa.Store)
+							if !ok {
+								continue
+							}
+							isGap := false
+							for _, r2 := range *al.Referrers() {
+								if fa2, ok := r2.(*ssa.FieldAddr); ok && derefStruct(al.Type()).Field(fa2.Field).Name() == "Gap" {
+									for _, r3 := range *fa2.Referrers() {
+										if s3, ok := r3.(*ssa.Store); ok {
+											if b, isB := constBool(s3.Val); isB && b {
+												isGap = true
+											}
+										}
+									}
+								}
+							}
+							if !isGap {
+								continue
+							}
+							n++
+							cnt++
+							key := fmt.Sprintf("%s|gap-entry#%d", name, cnt)
+							if f, _ := loadedField(st.Val); f == gapDur && gapDur != nil {
+								r.ok(key, c.Pos(st.Pos()), FuncName(fn), "a gap entry is listed with the duration stored in the gap", "gap.duration")
+							} else {
+								r.fail(key, c.Pos(st.Pos()), FuncName(fn), "a gap entry is listed with the duration stored in the gap", "duration is "+st.Val.String()+": the same media sequence number changes its duration between two playlists")
+							}
+						}
+					}
+				}
+				return
 			}
 			cnt++
 			n++
@@ -1044,5 +1083,152 @@ func ruleT7c(c *Ctx) *RuleResult {
 	} else {
 		r.fail("fileDisk.Finalize|final-size", c.Pos(fin.Pos()), FuncName(fin), "the file size is the end of its last part", "finalSize is not last.offset + last.size")
 	}
+	return r
+}
+
+// ---------------------------------------------------------------------------
+
+func init() {
+	registerRule("G12", "only the leading track drives segmentation: in the writers that serve non-leading tracks too, every call that creates or rotates segments / parts is control dependent on the track's own isLeading flag", ruleG12)
+	registerRule("V3b", "the playlist decoders do not use bufio.Scanner (its 64 KiB token limit makes long lines undecodable); lines are read with ReadLine / ReadString", ruleV3b)
+	registerRule("V1b", "EXT-X-MEDIA constraints match RFC 8216: a missing URI is rejected only for TYPE=SUBTITLES, a present URI only for TYPE=CLOSED-CAPTIONS", ruleV1b)
+}
+
+func ruleG12(c *Ctx) *RuleResult {
+	r := &RuleResult{Floor: 4, FloorWhat: "segmentation calls in writers that serve non-leading tracks"}
+	si := c.segmenter()
+	for _, p := range si.problems {
+		r.undecided("%s", p)
+	}
+	if len(si.problems) > 0 {
+		return r
+	}
+	lead := c.Field("", "muxerTrack", "isLeading")
+	fns := []*ssa.Function{si.writeSample}
+	if f := c.Method("", "muxerSegmenter", "writeMPEG4Audio"); f != nil {
+		fns = append(fns, f)
+	}
+	n := 0
+	for _, fn := range fns {
+		cnt := 0
+		conds := ifsOn(fn, func(v ssa.Value) bool { f, _ := loadedField(v); return f == lead })
+		allInstrs(fn, func(in ssa.Instruction) {
+			call, ok := in.(*ssa.Call)
+			if !ok || !call.Call.IsInvoke() {
+				return
+			}
+			switch call.Call.Method.Name() {
+			case "createFirstSegment", "rotateSegments", "rotateParts":
+			default:
+				return
+			}
+			n++
+			cnt++
+			key := fmt.Sprintf("%s|%s#%d", FuncName(fn), call.Call.Method.Name(), cnt)
+			if len(conds) > 0 && onlyIf(fn, call, conds, true) {
+				r.ok(key, c.Pos(call.Pos()), FuncName(fn), "segments and parts are created / rotated only on behalf of the leading track", "control dependent on track.isLeading")
+			} else {
+				r.fail(key, c.Pos(call.Pos()), FuncName(fn), "segments and parts are created / rotated only on behalf of the leading track",
+					"the call is reachable for a non-leading track: an audio unit can open or cut a segment, which then does not start with a random-access video unit")
+			}
+		})
+	}
+	r.Instances = n
+	return r
+}
+
+func ruleV3b(c *Ctx) *RuleResult {
+	r := &RuleResult{Floor: 3, FloorWhat: "decoder functions"}
+	all, _ := c.playlistFuncs()
+	n := 0
+	for _, fn := range all {
+		if fn.Name() != "Unmarshal" && fn.Name() != "unmarshal" && fn.Name() != "findType" && fn.Name() != "ReadLine" && fn.Name() != "SkipHeader" {
+			continue
+		}
+		n++
+		bad := ""
+		allInstrs(fn, func(in ssa.Instruction) {
+			if call, ok := in.(*ssa.Call); ok {
+				if f := call.Call.StaticCallee(); f != nil && (isFuncNamed(f, "bufio", "NewScanner") || isMethodNamed(f, "bufio", "Scanner", "Scan")) {
+					bad = c.Pos(call.Pos())
+				}
+			}
+		})
+		key := FuncName(fn) + "|no-scanner"
+		if bad == "" {
+			r.ok(key, c.Pos(fn.Pos()), FuncName(fn), "no bufio.Scanner in a decoder", "none")
+		} else {
+			r.fail(key, bad, FuncName(fn), "no bufio.Scanner in a decoder", "bufio.Scanner gives up on lines longer than 64 KiB: a playlist with a long line (inline data: URI, long unknown tag) decodes through Media.Unmarshal but not through playlist.Unmarshal")
+		}
+	}
+	r.Instances = n
+	return r
+}
+
+func ruleV1b(c *Ctx) *RuleResult {
+	r := &RuleResult{Floor: 2, FloorWhat: "URI constraints of EXT-X-MEDIA"}
+	fn := c.Method("pkg/playlist", "MultivariantRendition", "unmarshal")
+	uriF := c.Field("pkg/playlist", "MultivariantRendition", "URI")
+	typF := c.Field("pkg/playlist", "MultivariantRendition", "Type")
+	if fn == nil || uriF == nil || typF == nil {
+		r.undecided("MultivariantRendition.unmarshal / URI / Type not found")
+		return r
+	}
+	typeIs := func(name string) []condIf {
+		return ifsOn(fn, func(v ssa.Value) bool {
+			bo, ok := v.(*ssa.BinOp)
+			if !ok || bo.Op != token.EQL {
+				return false
+			}
+			f, _ := loadedField(bo.X)
+			s, isS := constString(bo.Y)
+			return f == typF && isS && s == name
+		})
+	}
+	n := 0
+	for _, b := range fn.Blocks {
+		if len(b.Instrs) == 0 {
+			continue
+		}
+		iff, ok := b.Instrs[len(b.Instrs)-1].(*ssa.If)
+		if !ok {
+			continue
+		}
+		bo, ok := iff.Cond.(*ssa.BinOp)
+		if !ok || (bo.Op != token.EQL && bo.Op != token.NEQ) {
+			continue
+		}
+		k, isNil := bo.Y.(*ssa.Const)
+		f, _ := loadedField(bo.X)
+		if !isNil || !k.IsNil() || f != uriF {
+			continue
+		}
+		// which branch returns an error?
+		for idx, succ := range b.Succs {
+			if len(succ.Instrs) == 0 {
+				continue
+			}
+			ret, isRet := succ.Instrs[len(succ.Instrs)-1].(*ssa.Return)
+			if !isRet || isSuccessReturn(ret) {
+				continue
+			}
+			uriNil := (bo.Op == token.EQL) == (idx == 0)
+			n++
+			want := "CLOSED-CAPTIONS"
+			desc := "a present URI is rejected only for TYPE=CLOSED-CAPTIONS"
+			if uriNil {
+				want = "SUBTITLES"
+				desc = "a missing URI is rejected only for TYPE=SUBTITLES"
+			}
+			key := fmt.Sprintf("MultivariantRendition.unmarshal|uri-%v", map[bool]string{true: "missing", false: "present"}[uriNil])
+			conds := typeIs(want)
+			if len(conds) > 0 && onlyIf(fn, ret, conds, true) {
+				r.ok(key, c.Pos(posOf(ret)), FuncName(fn), desc, "control dependent on Type == "+want)
+			} else {
+				r.fail(key, c.Pos(posOf(ret)), FuncName(fn), desc, "the rejection is reachable for other rendition types: a rendition that RFC 8216 4.3.4.1 allows (and that Marshal prints) no longer decodes")
+			}
+		}
+	}
+	r.Instances = n
 	return r
 }
